@@ -51,6 +51,12 @@ def path_cases(maxdepth=3):
                             inner_role = role if depth == 1 else ""
                             bi = {"n": "bi", "of": "B1", "port": port, "flipped": PARITY[flips[0]], "flipstyle": flips[0], "role": inner_role}
                             yield {"bundles": bundles, "bi": bi}
+                            if kind == "roled" and depth <= 2 and w == 1:
+                                import copy
+                                b2 = copy.deepcopy(bundles)
+                                for bn in b2:
+                                    b2[bn]["anonroles"] = True
+                                yield {"bundles": b2, "bi": dict(bi)}
 
 
 def name_cases():
@@ -76,6 +82,7 @@ def tree_cases(rnd, n):
     for _ in range(n):
         bundles = {}
         ctr = [0]
+        anon = rnd.random() < 0.3          # roles made with h.Roles(n): no names of their own
 
         def mk(depth):
             ctr[0] += 1
@@ -87,7 +94,7 @@ def tree_cases(rnd, n):
                     fs = rnd.choice(list(PARITY))
                     subs.append({"n": f"b{k}", "of": mk(depth + 1), "flipped": PARITY[fs], "flipstyle": fs,
                                  "role": rnd.choice(["", "HOST", "DEVICE", "OTHER"])})
-            bundles[bn] = {"sigs": sigs, "subs": subs, "roles": ROLES}
+            bundles[bn] = {"sigs": sigs, "subs": subs, "roles": ROLES, "anonroles": anon}
             return bn
         top = mk(1)
         port = rnd.random() < 0.8
